@@ -150,7 +150,9 @@ def mutations(ep, adesc, outcome, args, salt):
         return [{"op": "set_header", "name": wname, "value": bad + "-notanumber"}], bad
     if kind == "path":
         if outcome == "multi":
-            return [{"op": "set_path_segments", "index": wname, "values": [str(12 + salt % 50), str(34 + salt % 7)]}], None
+            # two raw segments; or one segment and a trailing slash (a second, empty segment)
+            second = [str(34 + salt % 7), "" if adesc.get("card") != "many" else "56", str(34 + salt % 7), "" if adesc.get("card") != "many" else "78"][salt % 4]
+            return [{"op": "set_path_segments", "index": wname, "values": [str(12 + salt % 50), second]}], None
         if adesc.get("card") == "many":
             # one element of the list cannot be parsed: a bad segment, or a segment whose DECODED text contains a slash
             vals = [["1", bad + "-notanumber", "3"], ["1", "2%2F3"], ["7%2F8"]][salt % 3]
